@@ -1,6 +1,6 @@
 use proc_macro2::TokenStream as TokenStream2;
 use quote::quote;
-use syn::{Data, DataEnum, DeriveInput, Error, Fields};
+use syn::{ext::IdentExt, Data, DataEnum, DeriveInput, Error, Fields};
 
 use crate::utils;
 
@@ -58,7 +58,7 @@ fn generate_error_definitions(
     let mut error_variants = Vec::new();
 
     for variant in &data_enum.variants {
-        let variant_name = variant.ident.to_string();
+        let variant_name = variant.ident.unraw().to_string();
 
         match &variant.fields {
             Fields::Unit => {
